@@ -141,6 +141,42 @@ static void k_thread_local_scratch(K &k)
         k.b[i] = g_tp_scratch[1] + 1;
     }
 }
+static void k_sections(K &k)
+{
+    long h = k.n / 2;
+#pragma omp parallel sections
+    {
+#pragma omp section
+        for (long i = 0; i < h; i++)
+            k.b[i] = k.a[i] * 3 + 1;
+#pragma omp section
+        for (long i = h; i < k.n; i++)
+            k.b[i] = k.a[i] * 3 + 1;
+    }
+}
+static void k_tasks(K &k)
+{
+#pragma omp parallel
+    {
+#pragma omp single
+        {
+            for (long i = 0; i < k.n; i++)
+            {
+#pragma omp task firstprivate(i)
+                k.b[i] = k.a[i] * 3 + 1;
+            }
+#pragma omp taskwait
+        }
+    }
+}
+static void k_taskloop(K &k)
+{
+#pragma omp parallel
+#pragma omp single
+#pragma omp taskloop
+    for (long i = 0; i < k.n; i++)
+        k.b[i] = k.a[i] * 3 + 1;
+}
 static void k_two_phase_barrier(K &k)
 {
     // phase 1 writes b, barrier, phase 2 reads neighbours of b: ordered by the barrier, no race
@@ -333,6 +369,9 @@ int main()
         {"function_static", k_function_static, false, 6},
         {"call_once", k_call_once, false, 6},
         {"thread_local_scratch", k_thread_local_scratch, false, 0},
+        {"sections", k_sections, false, 0},
+        {"tasks", k_tasks, false, 0},
+        {"taskloop", k_taskloop, false, 0},
         {"two_phase_barrier", k_two_phase_barrier, false, 1},
         {"two_phase_nowait_race", k_two_phase_nowait_race, true, 4},
         {"critical_sum", k_critical_sum, false, 2},
